@@ -41,6 +41,9 @@ fn matmul_nbits(
         OpError::UnsupportedValue(match err {
             BlockQuantizedError::UnsupportedBlockSize => "Unsupported K block size",
             BlockQuantizedError::UnsupportedElementSize => "Unsupported bits-per-element",
+            BlockQuantizedError::ScalesShapeMismatch => {
+                "Scales shape does not match quantized data shape"
+            }
         })
     })?;
 
